@@ -1,0 +1,35 @@
+//go:build verif
+
+package hctx
+
+// Contracts of the hctx.Context / hctx.HelperContext interface methods, assumed at
+// invoke sites (checked by /verif/bin/plushvc; see /verif/DESIGN.md). Comment-only.
+
+//@ iface hctx.Context.Has(ctx, key) r
+//@ assigns nothing
+
+// *plush.userFunction is unexported and allocated only by the evaluator: context data never holds a
+// typed nil pointer of that type (assumption about context data, listed in the evidence).
+//@ iface hctx.Context.Value(ctx, key) r
+//@ ensures is(r, "*plush.userFunction") ==> pay(r) != 0
+//@ assigns nothing
+
+//@ iface hctx.Context.Set(ctx, key, value)
+//@ assigns mapsof("map[string]interface{}")
+
+//@ iface hctx.Context.New(ctx) r
+//@ ensures r != nil
+//@ ensures is(ctx, "*plush.Context") ==> is(r, "*plush.Context") && fresh(unbox(r, "*plush.Context"))
+//@ assigns mapsof("map[string]interface{}"), fresh
+
+//@ iface hctx.HelperContext.HasBlock(h) r
+//@ assigns nothing
+
+//@ iface hctx.HelperContext.Block(h) s, err
+//@ assigns mapsof("map[string]interface{}"), fresh
+
+//@ iface hctx.HelperContext.BlockWith(h, c) s, err
+//@ assigns mapsof("map[string]interface{}"), fresh
+
+//@ iface hctx.HelperContext.Render(h, in) s, err
+//@ assigns mapsof("map[string]interface{}"), fresh
